@@ -685,7 +685,7 @@ pub fn run(args: &Args, c07: bool) -> i32 {
     report.assume("a NewPacketGuard is never abandoned after record_frame (no call site can do it: assemble_packet fails only when nothing was written)");
     let keep = |sig: &str| sig.starts_with("pn/") == c07 || sig.starts_with("panic/");
 
-    let (n_pkts, depth_s) = if args.thorough { (4u64, 9usize) } else { (3, 7) };
+    let (n_pkts, depth_s) = if args.thorough { (4u64, 9usize) } else { (4, 8) };
     let cfg = ExploreCfg {
         max_depth: depth_s,
         time_cap: Duration::from_secs(if args.thorough { 1200 } else { 60 }),
@@ -702,7 +702,7 @@ pub fn run(args: &Args, c07: bool) -> i32 {
     );
 
     if !c07 {
-        let (n, depth_r) = if args.thorough { (6u64, 8usize) } else { (5, 6) };
+        let (n, depth_r) = if args.thorough { (6u64, 8usize) } else { (5, 7) };
         let cfg = ExploreCfg {
             max_depth: depth_r,
             time_cap: Duration::from_secs(if args.thorough { 1200 } else { 60 }),
